@@ -269,3 +269,184 @@ Proof.
     + destruct (IHd fuel t2 (off / 2) sig' true t' Hwf2 ltac:(lia) Hqlt Hcont E) as (A & B & C).
       split; [assumption|]. split; [assumption|]. rewrite C. reflexivity.
 Qed.
+
+(* ------------------------------------------------------------------ closedness through the API *)
+Lemma p2_inj : forall a b, p2 a = p2 b -> a = b.
+Proof.
+  intros a b H. destruct (lt_eq_lt_dec a b) as [[L|L]|L]; [|assumption|].
+  - pose proof (p2_S_le a b L). pose proof (p2_pos a). lia.
+  - pose proof (p2_S_le b a L). pose proof (p2_pos b). lia.
+Qed.
+
+Lemma wf_h_unique : forall h h' t, wf_tree h t -> wf_tree h' t -> h = h'.
+Proof.
+  intros h h' t A B. apply p2_inj. pose proof (wf_sigs _ _ A). pose proof (wf_sigs _ _ B).
+  pose proof (p2_pos h). pose proof (p2_pos h'). lia.
+Qed.
+
+Lemma tree_add_signature_closed : forall h t idx sg t', wf_tree h t -> closed h t -> idx < 2 * p2 h - 1 ->
+  tree_add_signature t idx sg = Ok t' -> closed h t' /\ wf_tree h t'.
+Proof.
+  intros h t idx sg t' Hwf Hc Hlt E. destruct (node_exists h idx Hlt) as (d & off & Hd & Ho & ->).
+  unfold tree_add_signature in E.
+  destruct (tree_add_closed h d _ t off sg false t' Hwf Hd Ho (closed_except_weaken _ _ _ _ Hc) E) as (A & B & _).
+  auto.
+Qed.
+
+Lemma closed_of_empty : forall h t, (forall x, set_at (t_sigs t) x = false) -> closed h t.
+Proof. intros h t H d off _ _ _ Hs. rewrite H in Hs. discriminate. Qed.
+
+Lemma set_at_repeat_none : forall n x, set_at (repeatN None n) x = false.
+Proof.
+  intros n x. unfold set_at. destruct (N.ltb x n) eqn:E.
+  - apply N.ltb_lt in E. now rewrite nthN_repeatN.
+  - destruct (nthN (repeatN None n) x) as [v|] eqn:E2; [|reflexivity].
+    apply nthN_some_lt in E2. rewrite lenN_repeatN in E2. apply N.ltb_ge in E. lia.
+Qed.
+
+Lemma merge_sparse_loop_closed : forall msg h ents t av t' av', wf_tree h t -> closed h t ->
+  merge_sparse_loop msg ents t av = Ok (t', av') -> closed h t' /\ wf_tree h t'.
+Proof.
+  intros msg h. induction ents as [|[kid sg] rest IH]; intros t av t' av' Hwf Hc E.
+  - cbn in E. inversion E; subst. auto.
+  - cbn [merge_sparse_loop] in E.
+    destruct kid as [|x [|y [|z kid']]]; try (eapply IH; eauto; fail).
+    destruct (tree_get_spec h t (x * 256 + y) Hwf) as [(Hlt & k & s & Hk & Hs & Hg)|(Hge & Hg)];
+      rewrite Hg in E; cbn [negb] in E; [|eapply IH; eauto].
+    destruct s as [hs|].
+    + destruct (decode sg); [destruct (bsig_eqb hs b)|]; eapply IH; eauto.
+    + destruct (negb (verify k msg sg)); [eapply IH; eauto|].
+      destruct (decode sg) as [g|]; [|discriminate].
+      destruct (tree_add_signature t (x * 256 + y) g) as [t1|] eqn:Ea; [|discriminate].
+      destruct (tree_add_signature_closed h t _ g t1 Hwf Hc Hlt Ea) as [A B]. eapply IH; eauto.
+Qed.
+
+Lemma merge_loop_closed : forall msg h ot ids t av inc t' av' inc', wf_tree h t -> closed h t ->
+  merge_loop msg ot ids t av inc = Ok (t', av', inc') -> closed h t' /\ wf_tree h t'.
+Proof.
+  intros msg h ot. induction ids as [|oid rest IH]; intros t av inc t' av' inc' Hwf Hc E.
+  - cbn in E. inversion E; subst. auto.
+  - cbn [merge_loop] in E. destruct (tree_get ot oid) as [[okey osig] ook].
+    destruct (tree_get_spec h t oid Hwf) as [(Hlt & k & s & Hk & Hs & Hg)|(Hge & Hg)]; rewrite Hg in E.
+    + destruct s as [hs|].
+      * destruct osig as [os|]; [destruct (bsig_eqb hs os)|]; eapply IH; eauto.
+      * destruct osig as [os|]; [|eapply IH; eauto].
+        destruct (negb (verify k msg os)); [eapply IH; eauto|].
+        destruct (tree_add_signature t oid os) as [t1|] eqn:Ea; [|discriminate].
+        destruct (tree_add_signature_closed h t _ os t1 Hwf Hc Hlt Ea) as [A B]. eapply IH; eauto.
+    + destruct osig as [os|]; [|eapply IH; eauto]. cbn [verify negb] in E. eapply IH; eauto.
+Qed.
+
+(** closedness as a property of proofs *)
+Definition pcl (p : proof) : Prop := forall h, wf_tree h (p_tree p) -> closed h (p_tree p).
+
+Lemma pcl_intro : forall p h, wf_tree h (p_tree p) -> closed h (p_tree p) -> pcl p.
+Proof. intros p h A B h' C. rewrite <- (wf_h_unique h h' _ A C). exact B. Qed.
+
+Lemma merge_sparse_pcl : forall p hash ents p' f, pinv p -> pcl p ->
+  merge_sparse p hash ents = Ok (p', f) -> pcl p'.
+Proof.
+  intros p hash ents p' f [h (Hwf & _)] Hc E. unfold merge_sparse in E.
+  destruct (negb (hash =? p_hash p)); [inversion E; subst; exact Hc|].
+  destruct (merge_sparse_loop (p_msg p) ents (p_tree p) true) as [[t av]|] eqn:El; [|discriminate].
+  inversion E; subst. destruct (merge_sparse_loop_closed _ h _ _ _ _ _ Hwf (Hc h Hwf) El) as [A B].
+  apply (pcl_intro _ h); assumption.
+Qed.
+
+Lemma merge_pcl : forall p o p' f, pinv p -> pcl p -> merge p o = Ok (p', f) -> pcl p'.
+Proof.
+  intros p o p' f [h (Hwf & _)] Hc E. unfold merge in E.
+  destruct (negb (matches p o)); [inversion E; subst; exact Hc|].
+  destruct (sparse_indices (p_tree o)) as [ids|]; [|discriminate].
+  destruct (merge_loop (p_msg p) (p_tree o) ids (p_tree p) true false) as [[[t av] inc]|] eqn:El; [|discriminate].
+  inversion E; subst. destruct (merge_loop_closed _ h _ _ _ _ _ _ _ _ Hwf (Hc h Hwf) El) as [A B].
+  apply (pcl_intro _ h); assumption.
+Qed.
+
+Lemma add_signature_pcl : forall p sg key p' code, pinv p -> pcl p ->
+  add_signature p sg key = Ok (p', code) -> pcl p'.
+Proof.
+  intros p sg key p' code [h (Hwf & _)] Hc E. unfold add_signature, tree_index in E.
+  destruct (index_from (t_keys (p_tree p)) key 0) as [idx|] eqn:Ei; [|inversion E; subst; exact Hc].
+  apply index_from_spec in Ei. destruct Ei as [_ Hk]. replace (idx - 0) with idx in Hk by lia.
+  pose proof (nthN_some_lt _ _ _ _ Hk) as Hlt. rewrite (wf_keys_len _ _ Hwf) in Hlt.
+  destruct (tree_get (p_tree p) idx) as [[k s] ok].
+  destruct s as [hs|].
+  - destruct (decode sg) as [g|]; [destruct (bsig_eqb g hs)|]; inversion E; subst; exact Hc.
+  - destruct (negb (verify key (p_msg p) sg)); [inversion E; subst; exact Hc|].
+    destruct (decode sg) as [g|]; [|discriminate].
+    destruct (tree_add_signature (p_tree p) idx g) as [t1|] eqn:Ea; [|discriminate].
+    inversion E; subst. destruct (tree_add_signature_closed h _ _ g t1 Hwf (Hc h Hwf) Hlt Ea) as [A B].
+    apply (pcl_intro _ h); assumption.
+Qed.
+
+Lemma new_proof_pcl : forall msg n hash p, new_proof msg n hash = Ok p -> pcl p.
+Proof.
+  intros msg n hash p E h _. unfold new_proof, tree_new in E.
+  destruct ((n <? 1) || (65535 <? n)); [discriminate|]. inversion E; subst. cbn [p_tree].
+  apply closed_of_empty. cbn [t_sigs]. apply set_at_repeat_none.
+Qed.
+
+Lemma derive_pcl : forall p, pcl (derive p).
+Proof.
+  intros p h _. unfold derive, tree_derive. cbn [p_tree]. apply closed_of_empty. cbn [t_sigs]. apply set_at_repeat_none.
+Qed.
+
+(** every proof reachable through the API is closed *)
+Definition regs_cl (rs : regs) : Prop := forall r p, reg_get rs r = Some p -> pinv p /\ pcl p.
+
+Lemma regs_cl_set : forall rs r p, regs_cl rs -> pinv p -> pcl p -> regs_cl (reg_set rs r p).
+Proof.
+  intros rs r p H Hp Hc r' p'. unfold reg_set. cbn [reg_get]. destruct (Nat.eqb r r'); [|apply H].
+  intro E. inversion E; subst. auto.
+Qed.
+
+Lemma regs_cl_ok : forall rs, regs_cl rs -> regs_ok rs.
+Proof. intros rs H r p E. apply (H r p E). Qed.
+
+Lemma step_regs_cl : forall rs o, regs_cl rs -> regs_cl (fst (step rs o)).
+Proof.
+  intros rs o H. pose proof (step_regs_ok rs o (regs_cl_ok rs H)) as Hok.
+  intros r p E. split; [exact (Hok r p E)|]. revert r p E.
+  destruct o; cbn [step].
+  - destruct (new_proof msg n hash) eqn:En; cbn [fst]; [|intros r0 p0 E0; apply (H r0 p0 E0)].
+    intros r0 p0. unfold reg_set. cbn [reg_get]. destruct (Nat.eqb r r0); [|intro E0; apply (H r0 p0 E0)].
+    intro E0. inversion E0; subst. eapply new_proof_pcl; eauto.
+  - destruct (reg_get rs r) as [p|] eqn:E; [|intros r0 p0 E0; apply (H r0 p0 E0)].
+    destruct (add_signature p s key) as [[p' code]|] eqn:Ea; cbn [fst]; [|intros r0 p0 E0; apply (H r0 p0 E0)].
+    intros r0 p0. unfold reg_set. cbn [reg_get]. destruct (Nat.eqb r r0); [|intro E0; apply (H r0 p0 E0)].
+    intro E0. inversion E0; subst. destruct (H _ _ E). eapply add_signature_pcl; eauto.
+  - destruct (reg_get rs r) as [p|] eqn:E; [|intros r0 p0 E0; apply (H r0 p0 E0)].
+    destruct (reg_get rs o) as [q|] eqn:E2; [|intros r0 p0 E0; apply (H r0 p0 E0)].
+    destruct (merge p q) as [[p' f]|] eqn:Ea; cbn [fst]; [|intros r0 p0 E0; apply (H r0 p0 E0)].
+    intros r0 p0. unfold reg_set. cbn [reg_get]. destruct (Nat.eqb r r0); [|intro E0; apply (H r0 p0 E0)].
+    intro E0. inversion E0; subst. destruct (H _ _ E). eapply merge_pcl; eauto.
+  - destruct (reg_get rs r) as [p|] eqn:E; [|intros r0 p0 E0; apply (H r0 p0 E0)].
+    destruct (merge_sparse p hash ents) as [[p' f]|] eqn:Ea; cbn [fst]; [|intros r0 p0 E0; apply (H r0 p0 E0)].
+    intros r0 p0. unfold reg_set. cbn [reg_get]. destruct (Nat.eqb r r0); [|intro E0; apply (H r0 p0 E0)].
+    intro E0. inversion E0; subst. destruct (H _ _ E). eapply merge_sparse_pcl; eauto.
+  - destruct (reg_get rs r) as [p|] eqn:E; [|intros r0 p0 E0; apply (H r0 p0 E0)].
+    destruct (reg_get rs o) as [q|] eqn:E2; [|intros r0 p0 E0; apply (H r0 p0 E0)].
+    destruct (as_sparse q) as [[hh ents]|]; [|intros r0 p0 E0; apply (H r0 p0 E0)].
+    destruct (merge_sparse p hh ents) as [[p' f]|] eqn:Ea; cbn [fst]; [|intros r0 p0 E0; apply (H r0 p0 E0)].
+    intros r0 p0. unfold reg_set. cbn [reg_get]. destruct (Nat.eqb r r0); [|intro E0; apply (H r0 p0 E0)].
+    intro E0. inversion E0; subst. destruct (H _ _ E). eapply merge_sparse_pcl; eauto.
+  - destruct (reg_get rs r) as [p|]; [destruct (has_sparse_key_id p id)|]; intros r0 p0 E0; apply (H r0 p0 E0).
+  - destruct (reg_get rs r) as [p|]; intros r0 p0 E0; apply (H r0 p0 E0).
+  - destruct (reg_get rs r) as [p|] eqn:E; cbn [fst]; [|intros r0 p0 E0; apply (H r0 p0 E0)].
+    intros r0 p0. unfold reg_set. cbn [reg_get]. destruct (Nat.eqb to r0); [|intro E0; apply (H r0 p0 E0)].
+    intro E0. inversion E0; subst. rewrite clone_eq. apply (H _ _ E).
+  - destruct (reg_get rs r) as [p|] eqn:E; cbn [fst]; [|intros r0 p0 E0; apply (H r0 p0 E0)].
+    intros r0 p0. unfold reg_set. cbn [reg_get]. destruct (Nat.eqb to r0); [|intro E0; apply (H r0 p0 E0)].
+    intro E0. inversion E0; subst. apply derive_pcl.
+  - destruct (reg_get rs r) as [p|]; intros r0 p0 E0; apply (H r0 p0 E0).
+Qed.
+
+Theorem run_closed : forall ops rs, regs_cl rs -> regs_cl (regs_after rs ops).
+Proof.
+  induction ops as [|o ops IH]; intros rs H; cbn [regs_after fold_left]; [exact H|].
+  apply IH. now apply step_regs_cl.
+Qed.
+
+Lemma regs_cl_nil : regs_cl [].
+Proof. intros r p E. discriminate. Qed.
